@@ -109,7 +109,7 @@ fn from_end(op: &Op) -> bool {
 }
 
 /// prefix-integer model: optional '-' (signed), longest digit run, value must fit [min,max]
-fn int_prefix(rem: &str, signed: bool, min: i128, max_u: u128) -> Option<(String, usize)> {
+pub fn int_prefix(rem: &str, signed: bool, min: i128, max_u: u128) -> Option<(String, usize)> {
     let b = rem.as_bytes();
     let mut i = 0;
     let neg = signed && b.first() == Some(&b'-');
